@@ -8,7 +8,8 @@ def _bencode(data: typing.Union[int, bytes, bytearray, str, list, tuple, dict]) 
     elif isinstance(data, (bytes, bytearray)):
         return b'%d:%s' % (len(data), data)
     elif isinstance(data, str):
-        return b'%d:%s' % (len(data), data.encode())
+        data = data.encode()
+        return b'%d:%s' % (len(data), data)
     elif isinstance(data, (list, tuple)):
         encoded_list_items = b''
         for item in data:
